@@ -9,11 +9,11 @@ impl<'t> Clone for Token<'t> {
 #[verifier::external_body] pub struct ParolError { _x: u8 }
 #[verifier::external_body] pub struct LexerError { _x: u8 }
 #[verifier::external_body] pub struct LookaheadDFA { _x: u8 }
-#[verifier::external_body] pub struct SyntaxError { _x: u8 }
 #[verifier::external_body] pub struct FileSource { _x: u8 }
 #[verifier::external_body] pub struct Location { _x: u8 }
 /// the variants the parse loop constructs (the real ParserError has more)
 pub enum ParserError {
+    RecoveryFailed,
     SyntaxErrors { entries: Vec<SyntaxError> },
     UnprocessedInput { input: Box<FileSource>, last_token: Box<Location> },
 }
@@ -29,7 +29,27 @@ impl<'t> From<Token<'t>> for Location {
     #[verifier::external_body]
     fn from(t: Token<'t>) -> (r: Location) { unimplemented!() }
 }
+impl<'a, 't> From<&'a Token<'t>> for Location {
+    #[verifier::external_body]
+    fn from(t: &'a Token<'t>) -> (r: Location) { unimplemented!() }
+}
+/// parts of a syntax error message (contents are not the subject of any property here)
+#[verifier::external_body] pub struct UnexpectedToken { _x: u8 }
+impl UnexpectedToken {
+    #[verifier::external_body]
+    pub fn new(name: String, token_type: String, token: &Token<'_>) -> (r: Self) { unimplemented!() }
+}
+#[verifier::external_body] pub struct TokenVec { _x: u8 }
+impl TokenVec {
+    #[verifier::external_body]
+    pub fn default() -> (r: Self) { unimplemented!() }
+    #[verifier::external_body]
+    pub fn push(&mut self, token: String) { unimplemented!() }
+}
 pub type Result<T> = std::result::Result<T, ParolError>;
+// R5: format!(..) -> fmt_opaque(): the message text is not specified
+#[verifier::external_body]
+pub fn fmt_opaque() -> String { unimplemented!() }
 /// R14: the meaning of `v.drain(..).collect()`
 #[verifier::external_body]
 pub fn vec_drain_all<T>(v: &mut Vec<T>) -> (r: Vec<T>)
@@ -50,10 +70,27 @@ impl<T> ParseTreeStack<T> {
 #[verifier::external_body] #[verifier::reject_recursive_types(F)] pub struct TokenStream<'t, F> { _x: &'t u8, _f: Option<F> }
 impl<'t, F> TokenStream<'t, F> {
     pub uninterp spec fn consumed_all(&self) -> bool;
+    /// an upper bound of the token types this stream delivers (assumed: the scanner and the recovery only produce types that
+    /// index TERMINAL_NAMES); no operation changes it
+    pub uninterp spec fn type_bound(&self) -> int;
     #[verifier::external_body]
-    pub fn lookahead(&mut self, n: usize) -> (r: std::result::Result<Token<'t>, LexerError>) { unimplemented!() }
+    pub fn lookahead(&mut self, n: usize) -> (r: std::result::Result<Token<'t>, LexerError>)
+        ensures r is Ok ==> r->Ok_0.token_type < final(self).type_bound(), final(self).type_bound() == old(self).type_bound()
+    { unimplemented!() }
     #[verifier::external_body]
-    pub fn consume(&mut self) -> (r: std::result::Result<Token<'t>, LexerError>) { unimplemented!() }
+    pub fn consume(&mut self) -> (r: std::result::Result<Token<'t>, LexerError>)
+        ensures final(self).type_bound() == old(self).type_bound()
+    { unimplemented!() }
+    #[verifier::external_body]
+    pub fn enter_recovery_mode(&mut self)
+        ensures final(self).type_bound() == old(self).type_bound()
+    { unimplemented!() }
+    #[verifier::external_body]
+    pub fn ensure_buffer(&mut self) -> (r: std::result::Result<usize, LexerError>)
+        ensures final(self).type_bound() == old(self).type_bound()
+    { unimplemented!() }
+    #[verifier::external_body]
+    pub fn token_types(&self) -> (r: Vec<TerminalIndex>) { unimplemented!() }
     #[verifier::external_body]
     pub fn all_input_consumed(&self) -> (r: bool) ensures r == self.consumed_all() { unimplemented!() }
     #[verifier::external_body]
